@@ -324,7 +324,12 @@ def gen_case(src):
         k2 = tb.local(extra={nf(k1)}, decl=True)
         (t1, n1), (t2, n2) = tb.name(tb.pick()), tb.name(tb.pick())
         op = src.choice(["+", "-", "*"])
-        text = "{%s: %s, %s: %s %s (%s)}.%s" % (spell(src, k1), t1, spell(src, k2), spell(src, k1), op, t2, spell(src, k2))
+        # an entry key may also be written as a string literal: it introduces the same name
+        key1 = spell(src, k1)
+        if not any(x in SYMS for x in k1) and src.bool(0.3):
+            key1 = '"%s"' % " ".join(k1)
+            tb.labels.append("ctx-entry-key-as-string")
+        text = "{%s: %s, %s: %s %s (%s)}.%s" % (key1, t1, spell(src, k2), spell(src, k1), op, t2, spell(src, k2))
         node = ["path", ["ctx", [[nf(k1), n1], [nf(k2), ["arith", op, ["name", nf(k1)], n2]]]], nf(k2)]
         tb.labels.append("ctx-entry-key-reused")
         if len(k1) > 1 or len(k2) > 1:
